@@ -781,6 +781,16 @@ def Spec.meets (have_ need : Spec) : Bool :=
   | .text, .text => true
   | _, _ => false
 
+/-- a writer-side lower limit (REQUIRED PRESSURE in `_write_options`): `t` = (compared after the conversion to file units,
+the legal side is `>=` (else `>`), bound, the substitute is in file units, substitute); `conv` = SI → file units;
+result: the value handed to the formatter -/
+def clampWrite (t : Bool × Bool × Rat × Bool × Rat) (conv : Rat → Rat) (x : Rat) : Rat :=
+  let legal := fun (v : Rat) => if t.2.1 then decide (v ≥ t.2.2.1) else decide (v > t.2.2.1)
+  if t.1 then
+    (if legal (conv x) then conv x else (if t.2.2.2.1 then t.2.2.2.2 else conv t.2.2.2.2))
+  else
+    (if legal x then conv x else (if t.2.2.2.1 then t.2.2.2.2 else conv t.2.2.2.2))
+
 end Wntr.InpFormat
 
 /-! ## `InpSchema` — the shape of the INP section writers / readers (wntr/epanet/io.py)
